@@ -215,8 +215,132 @@ pub fn run(cfg: &Cfg, rep: &mut Report) {
     }
   }
 
+  // several subscriptions made from clones of ONE finalize(..) value over one
+  // hot subject: each subscription owes its own callback run
+  if cfg.only_case.is_none() || cfg.only_case.as_deref().map_or(false, |c| c.starts_with("clones")) {
+    let trigs = [CTrig::Item, CTrig::Unsub(0), CTrig::Unsub(1), CTrig::Unsub(2), CTrig::Complete, CTrig::Error];
+    let max = cfg.n(4, 5);
+    let mut idx = 0usize;
+    let mut hist: Vec<usize> = vec![];
+    // all histories up to length max over the six triggers
+    loop {
+      idx += 1;
+      if cfg.mine(idx) {
+        let h: Vec<CTrig> = hist.iter().map(|i| trigs[*i]).collect();
+        for threads in [false, true] {
+          let id = format!("clones:{}:{}", idx, threads);
+          if !cfg.wants(&id) {
+            continue;
+          }
+          rep.evaluations += 1;
+          rep.count("histories_over_cloned_finalize_values", 1);
+          if h.iter().filter(|t| !matches!(t, CTrig::Item)).count() >= 2 {
+            rep.nontrivial.insert(hash64(&("clones", &h, threads)));
+          }
+          rep.events += h.len() as u64;
+          if let Some(why) = clone_case(threads, &h) {
+            let fl = if threads { "finalize_threads" } else { "finalize" };
+            rep.violation("finalize_not_per_subscription", &format!("{}[clones of one operator value]", fl), &id, json!({"history": format!("{:?}", h), "why": why}));
+          }
+        }
+      }
+      // next history (odometer)
+      let mut k = 0;
+      loop {
+        if k == hist.len() {
+          hist.push(0);
+          break;
+        }
+        hist[k] += 1;
+        if hist[k] < trigs.len() {
+          break;
+        }
+        hist[k] = 0;
+        k += 1;
+      }
+      if hist.len() > max {
+        break;
+      }
+    }
+  }
+
   // thread part: terminating thread vs unsubscribing thread on finalize_threads (baton scheduler)
   let n = cfg.n(12_000, 600_000);
   super::thr::systematic_families(cfg, rep, 0xC15A, &[10, 10, 10], &|_, _| {}, &|o, _| super::thr::finalize_oracle(o));
   super::thr::campaign(cfg, rep, "thr", n, 0xC15F, &mut |r: &mut Rng| super::thr::random_scen(r, 10), &|o, _| super::thr::finalize_oracle(o));
+}
+
+#[derive(Clone, Copy, Debug, PartialEq, Eq, Hash)]
+pub enum CTrig {
+  Item,
+  Unsub(usize),
+  Complete,
+  Error,
+}
+
+macro_rules! clone_drive {
+  ($subj:ty, $fin:ident, $h:expr) => {{
+    use rxrust::prelude::*;
+    use std::sync::atomic::{AtomicUsize, Ordering};
+    use std::sync::Arc;
+    let h: &[CTrig] = $h;
+    let log = Log::new();
+    let mut subj = <$subj>::default();
+    let runs = Arc::new(AtomicUsize::new(0));
+    let r2 = runs.clone();
+    let op = subj.clone().$fin(move || {
+      r2.fetch_add(1, Ordering::SeqCst);
+    });
+    // three subscriptions from clones of the same operator value
+    let mut subs = vec![
+      Some(op.clone().actual_subscribe(Probe::new(1, &log))),
+      Some(op.clone().actual_subscribe(Probe::new(2, &log))),
+      Some(op.actual_subscribe(Probe::new(3, &log))),
+    ];
+    let mut alive = [true, true, true];
+    let mut expected = 0usize;
+    let mut why = None;
+    if runs.load(Ordering::SeqCst) != 0 {
+      why = Some("the callback ran while subscribing".to_string());
+    }
+    for (i, t) in h.iter().enumerate() {
+      match t {
+        CTrig::Item => subj.next(V::I(i as i64)),
+        CTrig::Unsub(k) => {
+          if let Some(u) = subs[*k].take() {
+            u.unsubscribe();
+            if alive[*k] {
+              alive[*k] = false;
+              expected += 1;
+            }
+          }
+        }
+        CTrig::Complete | CTrig::Error => {
+          if matches!(t, CTrig::Complete) {
+            subj.clone().complete()
+          } else {
+            subj.clone().error(7)
+          }
+          for a in alive.iter_mut() {
+            if *a {
+              *a = false;
+              expected += 1;
+            }
+          }
+        }
+      }
+      let got = runs.load(Ordering::SeqCst);
+      if got != expected && why.is_none() {
+        why = Some(format!("after step {} ({:?}) the callback had run {} times; {} subscriptions had ended by then", i, t, got, expected));
+      }
+    }
+    why
+  }};
+}
+
+pub fn clone_case(threads: bool, h: &[CTrig]) -> Option<String> {
+  match catch(|| if threads { clone_drive!(SubjectThreads<V, E>, finalize_threads, h) } else { clone_drive!(Subject<'static, V, E>, finalize, h) }) {
+    Ok(w) => w,
+    Err(p) => Some(format!("panic: {}", p)),
+  }
 }
